@@ -110,6 +110,46 @@ def run_slow_sequences(rnd, n):
     return world.run_virtual(go())
 
 
+def run_idle_sessions(rnd, n):
+    """a session opened with the real connect() (over a scripted connection: the library's `open_connection` is answered by the harness) on
+    the virtual clock, with seconds to hours of silence between its operations.  Whatever the client does while idle, the frames the device gets
+    are those of the operations: nothing is written in between, and each operation is its login frame and its command frames"""
+    import time as _time
+    import aioswitcher.api as A
+    async def go():
+        cases = []; texts = []; loop = asyncio.get_running_loop()
+        for _ in range(n):
+            t2 = rnd.random() < .5; ident = ("%06x" % rnd.randrange(1 << 24), "%02x" % rnd.randrange(256))
+            s = world.SlowApi(t2, *ident); reader, writer = s.api._reader, s.api._writer
+            async def closed(): return None
+            writer.wait_closed = closed; writer.is_closing = lambda: False
+            fresh = (world.SwitcherType2Api if t2 else world.SwitcherType1Api)("127.0.0.1", *ident)
+            async def answered(*a, **k): return reader, writer
+            orig = getattr(A, "open_connection", None); mono = _time.monotonic
+            if orig is None: return None, None
+            renamed = []
+            A.open_connection = answered; _time.monotonic = loop.time          # the monotonic clock follows the loop's (virtual) clock,
+            renamed = [k for k, v in vars(A).items() if v is mono]               # also where the library holds it under a name of its own (`from time import monotonic`)
+            for k in renamed: setattr(A, k, loop.time)
+            try:
+                await fresh.connect(); s.api = fresh; now = rnd.randrange(1_600_000_000, 2_000_000_000)
+                for _ in range(rnd.randrange(2, 4)):
+                    s.frames.clear(); gap = rnd.choice([0, 3, 26, 31, 61, 125, 601, 3700]); await asyncio.sleep(gap)
+                    idle = list(s.frames)
+                    kind = rnd.choice([k for k in range(1, 12) if (k in world.TYPE2_KINDS) == t2])
+                    c = clean_case(rnd, kind); c["id"], c["key"] = ident; now += gap + 1; c["now"] = now; c["idle_before"] = gap
+                    if kind == 4: c["replies"][1] = world.schedules_reply(rnd, now).hex()
+                    t = await s.run(kind, c["args"], [bytes.fromhex(r) for r in c["replies"]], now)
+                    texts.append("".join(f + "|" for f in idle) + t); cases.append(c)
+                try: await asyncio.wait_for(fresh.disconnect(), 5)
+                except Exception: pass
+            finally:
+                A.open_connection = orig; _time.monotonic = mono
+                for k in renamed: setattr(A, k, mono)
+        return cases, texts
+    return world.run_virtual(go())
+
+
 def run_one_script(rnd, n):
     """sequences of operations on ONE api object whose device script is loaded ONCE for the whole sequence: the replies are consumed
     one per frame written, so an operation that stops early (refused argument, empty login reply) leaves its replies to the next
@@ -294,6 +334,9 @@ def run(tier, rnd, out):
     judge_scripts(out, "one-script-for-a-whole-sequence", cases, texts)
     cases, texts = run_slow_sequences(rnd, 30 if tier == "quick" else 600)
     judge(out, "slow-replies-on-one-object", cases, texts)
+    cases, texts = run_idle_sessions(rnd, 25 if tier == "quick" else 500)
+    if cases is None: out.notes.append("the library no longer opens its connection through aioswitcher.api.open_connection: stream sessions-with-idle-gaps not run")
+    else: judge(out, "sessions-with-idle-gaps-on-a-virtual-clock", cases, texts)
     cases, texts = run_interleaved(rnd, 40 if tier == "quick" else 1000)
     judge(out, "two-objects-interleaved", cases, texts)
     cases, texts = run_interleaved(rnd, 40 if tier == "quick" else 1000, four_frames=True)
@@ -304,6 +347,13 @@ def run(tier, rnd, out):
     judge_same_address(out, "two-objects-connected-to-one-address-operating-at-once", cases, texts)
     tcp = [c for c in oc.mixed_cases(rnd, 2 if tier == "quick" else 15) if all(len(r) > 0 for r in c["replies"])]
     judge(out, "single-over-tcp", tcp, asyncio.run(oc.run_tcp(tcp)))
+    # ... and a device that answers the login and hangs up at the command (every kind of operation): whatever the outcome, the frames it
+    # received - on whatever connections - are this operation's login frame and one command frame bound to it
+    hang = []
+    for kind in range(1, 12):
+        c = world.rand_op_case(rnd, kind, "valid", True)
+        if len(c["replies"][0]) >= 24: c["replies"] = [c["replies"][0], ""]; hang.append(c)
+    judge(out, "over-tcp-the-device-hangs-up-at-the-command", hang, asyncio.run(oc.run_tcp(hang)))
 
 
 def run_one_slow(c):
